@@ -330,11 +330,95 @@ pub fn c22_meta_case(bytes: &[u8], stats: &mut Stats, counting: bool, cfg: &GenC
     }
 }
 
+fn has_outputs(e: &EdgeSel) -> bool {
+    e.count.as_ref().map(|c| !c.outputs.is_empty()).unwrap_or(false)
+        || e.body.iter().any(|s| match s {
+            Sel::Prop(p) => !p.outputs.is_empty(),
+            Sel::Edge(ch) => has_outputs(ch),
+        })
+}
+
+/// Q- = Q with every observer removed from one filtered fold (all outputs inside it and on its count), which is what
+/// makes the fold eligible for early termination; rows of Q projected onto Q-'s outputs must equal rows of Q-.
+/// Both queries get one extra root-level output so that Q- always has an output.
+pub fn c22_strip_case(bytes: &[u8], stats: &mut Stats, counting: bool, cfg: &GenConfig) -> Verdict {
+    let mut c = Choices::new(bytes);
+    let sel = c.byte();
+    let case = decode_world_case(&mut c, cfg);
+    if case.features.count_filter == 0 {
+        return Verdict::Discard("no-count-filter".into());
+    }
+    let q = &case.query;
+    let paths: Vec<Vec<usize>> = edge_paths(q)
+        .into_iter()
+        .filter(|p| {
+            !p.is_empty() && {
+                let e = edge_at(q, p);
+                e.fold && e.count.as_ref().map(|c| !c.filters.is_empty()).unwrap_or(false) && has_outputs(e)
+            }
+        })
+        .collect();
+    if paths.is_empty() {
+        return Verdict::Discard("no-observed-fold-with-count-filter".into());
+    }
+    let path = paths[(sel as usize * paths.len()) >> 8].clone();
+    let mut base = q.clone();
+    base.root.body.push(Sel::Prop(PropSel { name: "__typename".into(), outputs: vec![Some("obs_root".into())], ..Default::default() }));
+    let mut stripped = base.clone();
+    strip_outputs(edge_at_mut(&mut stripped, &path));
+    let full = match run_query(&case, &base, &case.args) {
+        Ok(r) => r,
+        Err(e) => return Verdict::Discard(format!("base:{e}")),
+    };
+    let less = match run_query(&case, &stripped, &case.args) {
+        Ok(r) => r,
+        Err(e) => return Verdict::Discard(format!("stripped:{e}")),
+    };
+    let keys: Vec<String> = less.rows.first().map(|r| r.keys().cloned().collect()).unwrap_or_default();
+    let projected = project(&full.rows, &keys);
+    if counting {
+        stats.label("observers_stripped_from_a_filtered_fold");
+        let n_filters = edge_at(q, &path).count.as_ref().map(|c| c.filters.len()).unwrap_or(0);
+        if n_filters >= 2 {
+            stats.label("stripped_fold_has_two_or_more_count_filters");
+        }
+        let mut re = RefEval::new(&case.world, &case.ann, &case.args);
+        if re.eval().is_ok() && shortcut_exercised(&case, &re) {
+            let mut key = case.key();
+            key.push(sel);
+            key.push(0xfe);
+            if stats.nontrivial(&key) {
+                stats.sample(|| json!({"query": base.render(), "stripped_query": stripped.render(), "args": format!("{:?}", case.args)}));
+            }
+        }
+    }
+    let same = if less.rows.is_empty() { full.rows.is_empty() } else { multiset(&projected) == multiset(&less.rows) };
+    if same {
+        Verdict::Pass
+    } else {
+        Verdict::Fail {
+            sig: "c22:removing-observers-changes-results".into(),
+            msg: format!(
+                "removing all outputs from a count-filtered fold changed the other outputs or the row set: {} rows vs {} rows\nquery:\n{}\nstripped query:\n{}\nargs: {:?}",
+                full.rows.len(),
+                less.rows.len(),
+                base.render(),
+                stripped.render(),
+                case.args
+            ),
+        }
+    }
+}
+
 pub fn c22(ctx: &CheckCtx) -> i32 {
     let cfg = c22_gen_config();
     if ctx.replay.is_some() {
         return replay_with(ctx, &|sub, b| {
-            if sub == "c22-meta" { c22_meta_case(b, &mut Stats::default(), false, &cfg) } else { c22_reference_case(b, &mut Stats::default(), false, &cfg) }
+            match sub {
+                "c22-meta" => c22_meta_case(b, &mut Stats::default(), false, &cfg),
+                "c22-strip" => c22_strip_case(b, &mut Stats::default(), false, &cfg),
+                _ => c22_reference_case(b, &mut Stats::default(), false, &cfg),
+            }
         });
     }
     let mut report = Report::new(
@@ -343,7 +427,9 @@ pub fn c22(ctx: &CheckCtx) -> i32 {
          lists incl. empty, nested folds, count tags used in sibling folds, outputs nowhere / on the count / inside / only in a \
          nested fold). Oracle (a): the reference interpreter, which always materialises folds fully. Oracle (b), engine vs \
          engine: Q+ = Q plus observers on one filtered fold (count @output, inner @output, count @tag consumed by an always-true \
-         filter of a later sibling fold); rows of Q+ projected onto Q's outputs must equal rows of Q. Non-trivial: some fold's \
+         filter of a later sibling fold); rows of Q+ projected onto Q's outputs must equal rows of Q. Oracle (c), engine vs engine: \
+         Q- = Q with every output removed from one filtered fold (which makes it eligible for early termination); rows of Q \
+         projected onto Q-'s outputs must equal rows of Q-. Non-trivial: some fold's \
          true size exceeds a count-filter bound so that early termination could fire; distinct by case hash.",
     );
     let cases = ctx.cases(30_000, 1_000_000);
@@ -351,6 +437,9 @@ pub fn c22(ctx: &CheckCtx) -> i32 {
     report.absorb(res, &|b| render_world_case(b, &cfg));
     let cases = ctx.cases(60_000, 2_000_000);
     let res = search(ctx, "c22-meta", cases, WORLD_MIN_LEN, WORLD_MAX_LEN, |b, s, k| c22_meta_case(b, s, k, &cfg));
+    report.absorb(res, &|b| render_world_case(&b[1.min(b.len())..], &cfg));
+    let cases = ctx.cases(60_000, 2_000_000);
+    let res = search(ctx, "c22-strip", cases, WORLD_MIN_LEN, WORLD_MAX_LEN, |b, s, k| c22_strip_case(b, s, k, &cfg));
     report.absorb(res, &|b| render_world_case(&b[1.min(b.len())..], &cfg));
     report.finish()
 }
